@@ -98,7 +98,10 @@ def _set_sys_phases(run, src):
     writes = []
     def mk_phases():
         keys = Opaque("phases.keys", methods={"len": lambda e: SV(N, "int")}, contains=lambda e, item: HASNA if item == "N/A" else z3.Bool("has_" + str(item)))
-        return Opaque("phases_arg", methods={"keys": lambda e: keys, "eq": lambda e, other: (N == 0) if other == {} else False})
+        DUR = z3.Function("duration_of_phase", I, z3.RealSort())
+        vals = Seq(N, lambda j: SV(DUR(j), "real"), "phases.values()")
+        return Opaque("phases_arg", methods={"keys": lambda e: keys, "values": lambda e: vals, "len": lambda e: SV(N, "int"),
+                                             "eq": lambda e, other: (N == 0) if other == {} else False}, truth=lambda e: N > 0)
     eng = Engine(src)
     eng.extra_globals["list"] = Builtin("list", lambda e, x=(): x if isinstance(x, Opaque) else list(e.iterate(x)))
     def thunk(e):
